@@ -303,7 +303,7 @@ class Checker(metaclass=abc.ABCMeta):
             except ling.LanguageError:
                 self.tag('invalid-language', orig_meta_language)
                 meta_language = None
-            if language_source_quality <= 0 and (
+            if meta_language is not None and language_source_quality <= 0 and (
                 f'/{meta_language}/' in self.path or
                 f'/{meta_language}/'.replace('_', '-') in self.path
             ):
